@@ -116,3 +116,18 @@ package xpkg
 //@ loop range pkg.GetObjects()
 //@   invariant [C15:every-object-so-far-is-encoded-once] encoded == done + 1
 //@ ensures [C15:built-package-holds-the-meta-and-every-object] err == nil ==> encoded == len(pkg.GetObjects()) + 1 && result == pkgBuf
+
+// C20 / C14 (packages are indexed by their source, for any registry host): the source of a
+// package reference is the reference's own text with its identifier (tag or digest) cut off the
+// END and the delimiter trimmed - nothing is cut at an earlier ':' (a registry port) or '@'.
+//@ func xpkg.ParsePackageSourceFromReference
+//@ props C20
+//@ frame fresh-only
+//@ requires ref != nil
+//@ let $cut = result strings.TrimSuffix
+//@ let $src = result strings.TrimRight
+//@ site strings.TrimSuffix($s, $suffix)
+//@   assert [C20:identifier-is-cut-off-the-end-of-the-reference] $s == ref.String() && $suffix == ref.Identifier()
+//@ site strings.TrimRight($s, $set)
+//@   assert [C20:only-the-trailing-delimiter-is-trimmed] $s == $cut && $set == identifierDelimeters
+//@ ensures [C20:source-is-the-reference-without-its-identifier] result == $src
